@@ -19,6 +19,10 @@
 (* TLC checks operational |= declarative; every behaviour TLC enumerates is an implementation      *)
 (* test whose expected observations are the values of this module.                                 *)
 (*                                                                                                 *)
+(* Outside this module: the no_reply flag of the controllers, malformed task bodies (no task key),   *)
+(* pause / kill of launched processes (C04, C05), the exception class of a missing checkpoint and    *)
+(* shared bundles of the in-memory persister (C14), the loader named inside a bundle (C19).          *)
+(*                                                                                                 *)
 (* A clause guarded by "Fx" \in Fixes is the repaired behaviour, its ELSE branch the code as        *)
 (* written; as-written clauses that go wrong add a deviation identifier to S.dev.  A behaviour is    *)
 (* excused from the declarative properties only if it exercised such a clause and every deviation   *)
